@@ -93,7 +93,9 @@ def corr_patterns(ctx):
     rng = ctx.rng
     n_base = 3 if ctx.quick else 12
     k = 5 if ctx.quick else 10
-    specs = [(sp, fl) for _, sp, fl, _ in mon.corpus()] + [(sp, None) for sp in base_specs(ctx, n_base)]
+    # (the machines_* corpus nets differ from the others only in physical parameters: monitors only)
+    specs = [(sp, fl) for nm, sp, fl, _ in mon.corpus() if not nm.startswith("machines")] + \
+        [(sp, None) for sp in base_specs(ctx, n_base)]
     conn, heat, red, meta, meta_red, rst = [], [], [], [], [], []
     for sp, fixed_flags in specs:
         net = gen.build(sp)
